@@ -761,6 +761,9 @@ func (s *vScenario) observe(st *vState) *vObs {
 	}
 	for i, a := range resolvedNames {
 		search2("not", a, "", vTagFilter(a, true))
+		// the tag inside a sub-query: the streams numbered one above a stream of the tag
+		typ, sub, _ := strings.Cut(a, "/")
+		search2("subnext", a, "", fmt.Sprintf("@s:%s:%s id:@s:id@+1", typ, sub))
 		for j, b := range resolvedNames {
 			if i < j {
 				search2("and", a, b, vTagFilter(a, false)+" "+vTagFilter(b, false))
